@@ -431,6 +431,92 @@ func Gen(run *vlib.Run, seed uint64, tier string) {
 		one(run, "font", d, gl, genOrc(rr), label, "kind:"+o.kind)
 	}
 
+	// (v) deep closures: chains of substitution rules feeding each other
+	// (several rounds of the nMissing loop) and deeply nested composites
+	nd := vlib.Count(tier, 90, 1800)
+	for i := 0; i < nd; i++ {
+		rr := r.Fork(fmt.Sprint("d", i))
+		kind := kinds[i%3]
+		n := rr.Range(6, 24)
+		o := &genOpts{kind: kind, n: n}
+		d := genFont(rr, o)
+		d.NoGsub = false
+		d.Gsub = nil
+		for g := range d.Glyphs {
+			d.Glyphs[g].Comps = nil
+		}
+		order := perm(rr, n-1) // a random chain through the glyphs 1..n-1
+		for j := range order {
+			order[j]++
+		}
+		// single substitutions along the chain where the step happens to be constant
+		var ligs GsubSub
+		ligs.Kind = "lig"
+		sets := map[int][]Lig{}
+		singles := map[int][]int{}
+		for j := 0; j+2 < len(order); j++ {
+			a, b, c := order[j], order[j+1], order[j+2]
+			switch rr.Intn(3) {
+			case 0: // a b -> c
+				sets[a] = append(sets[a], Lig{In: []int{b}, Out: c})
+			case 1: // b -> c  (delta c-b mod 65536)
+				dl := ((c-b)%65536 + 65536) % 65536
+				singles[dl] = append(singles[dl], b)
+			default: // b a b -> c
+				sets[b] = append(sets[b], Lig{In: []int{a, b}, Out: c})
+			}
+			if kind == "glyf" && rr.Chance(2, 3) {
+				d.Glyphs[a].Comps = append(d.Glyphs[a].Comps, b) // nested along the chain: no cycle
+			}
+		}
+		var firsts []int
+		for f := range sets {
+			firsts = append(firsts, f)
+		}
+		sort.Ints(firsts)
+		for _, f := range firsts {
+			ligs.Sets = append(ligs.Sets, LigSet{First: f, Ligs: sets[f]})
+		}
+		var deltas []int
+		for dl := range singles {
+			deltas = append(deltas, dl)
+		}
+		sort.Ints(deltas)
+		var lk1 []GsubSub
+		for _, dl := range deltas {
+			cov := singles[dl]
+			sort.Ints(cov)
+			cov = dedupInts(cov)
+			ok := true
+			for _, g := range cov {
+				if (g+dl)%65536 >= n {
+					ok = false
+				}
+			}
+			if ok && dl != 0 {
+				lk1 = append(lk1, GsubSub{Kind: "s1", Delta: dl, Cov: cov})
+			}
+		}
+		if len(lk1) > 0 {
+			d.Gsub = append(d.Gsub, lk1)
+		}
+		if len(ligs.Sets) > 0 {
+			d.Gsub = append(d.Gsub, []GsubSub{ligs})
+		}
+		if kind == "glyf" && i%2 == 1 {
+			d.Gsub = nil // composites only: the nesting decides what is appended
+		}
+		if len(d.Gsub) == 0 {
+			d.NoGsub = true
+		}
+		gl := []int{0, order[0], order[1]}
+		if rr.Bool() {
+			gl = append(gl, order[len(order)/2])
+		}
+		gl = dedupKeepOrder(gl)
+		one(run, "font", d, gl, genOrc(rr), "deep", "kind:"+kind)
+	}
+
 	// (iv) large fonts (compared with the model) ...
 	nlg := vlib.Count(tier, 6, 60)
 	for i := 0; i < nlg; i++ {
@@ -458,4 +544,26 @@ func Gen(run *vlib.Run, seed uint64, tier string) {
 			oneOracleOnly(run, "font", d, gl, "huge", fmt.Sprintf("glyphs:%d", n), "kind:"+o.kind)
 		}
 	}
+}
+
+func dedupInts(xs []int) []int {
+	var out []int
+	for i, x := range xs {
+		if i == 0 || x != xs[i-1] {
+			out = append(out, x)
+		}
+	}
+	return out
+}
+
+func dedupKeepOrder(xs []int) []int {
+	seen := map[int]bool{}
+	var out []int
+	for _, x := range xs {
+		if !seen[x] {
+			seen[x] = true
+			out = append(out, x)
+		}
+	}
+	return out
 }
